@@ -126,25 +126,28 @@ class RealDaemon:
             c05_rig.forget_types([type(self.target)])
 
 
-def read_msg(s):
-    """one complete message from a raw socket, or None"""
-    try:
-        hdr = b""
-        while len(hdr) < 40:
-            c = s.recv(40 - len(hdr))
-            if not c:
+def read_msg(s, rd=None):
+    """one complete message from a raw socket, or None (peer closed / nothing within the deadline / the daemon's loop is gone)"""
+    t0 = time.time()
+    buf = b""
+    need = 40
+    s.settimeout(0.25)
+    while True:
+        try:
+            c = s.recv(need - len(buf))
+        except socket.timeout:
+            if (rd is not None and rd.loop_exc) or time.time() - t0 > DEADLINE:
                 return None
-            hdr += c
-        n = int.from_bytes(hdr[12:16], "big") + int.from_bytes(hdr[16:20], "big")
-        body = b""
-        while len(body) < n:
-            c = s.recv(n - len(body))
-            if not c:
-                return None
-            body += c
-        return hdr + body
-    except OSError:
-        return None
+            continue
+        except OSError:
+            return None
+        if not c:
+            return None
+        buf += c
+        if len(buf) == 40 and need == 40:
+            need = 40 + int.from_bytes(buf[12:16], "big") + int.from_bytes(buf[16:20], "big")
+        if len(buf) >= need:
+            return buf
 
 
 def hostile(rd, act):
@@ -153,7 +156,7 @@ def hostile(rd, act):
     try:
         if act["shake"]:
             s.sendall(srvkit.render_msg(c05_gen.handshake_msg(act.get("ser", 2), 9)))
-            if read_msg(s) is None:
+            if read_msg(s, rd) is None:
                 return
         s.sendall(common.unhx(act["hex"]))
         if act["close"] == "drain":
@@ -233,7 +236,7 @@ def scenario(ctx, servertype, commtimeout, poolsize, acts1, acts2, case):
             for _ in range(poolsize - 2):
                 s = rd.raw()
                 s.sendall(srvkit.render_msg(c05_gen.handshake_msg(3, 1)))
-                read_msg(s)
+                read_msg(s, rd)
                 squat.append(s)
             rd.wait_for(lambda a: a["busy"] >= poolsize)
         for k, a in enumerate(acts2):
